@@ -18,6 +18,7 @@ var allMetrics = []comet.DistanceKind{comet.Euclidean, comet.L2Squared, comet.Co
 type idGen struct {
 	used map[uint32]bool
 	rng  *rand.Rand
+	min  uint32 // ids below min are never handed out (kept clear of comet's auto-generated ids)
 }
 
 func newIDGen(rng *rand.Rand) *idGen { return &idGen{used: map[uint32]bool{}, rng: rng} }
@@ -37,7 +38,7 @@ func (g *idGen) next() uint32 {
 		default:
 			id = math.MaxUint32 - uint32(g.rng.IntN(4))
 		}
-		if id != 0 && !g.used[id] {
+		if id != 0 && id >= g.min && !g.used[id] {
 			g.used[id] = true
 			return id
 		}
@@ -48,7 +49,7 @@ func (g *idGen) next() uint32 {
 func (g *idGen) absent() uint32 {
 	for {
 		id := uint32(1 + g.rng.IntN(1<<30))
-		if !g.used[id] {
+		if id >= g.min && !g.used[id] {
 			g.used[id] = true // reserve: never handed out as a real id
 			return id
 		}
